@@ -388,6 +388,8 @@ class Library:
             raise OutOfReach("np.max")
 
         class _Finfo:
+            qv_value = True
+
             def __init__(self, t=None):
                 self.eps = Fraction(2) ** -52
                 self.tiny = Fraction(2) ** -1022
